@@ -45,6 +45,8 @@ type c16Workload struct {
 	pairs []c16Pair
 	// ids discovered while running
 	assetID map[string]uint64
+	// probes
+	epochSeen map[string]rewardstypes.EpochInfo
 }
 
 type c16Pair struct {
@@ -55,15 +57,45 @@ type c16Pair struct {
 }
 
 func c16NewWorkload(in *c16Inst, seed uint64, thor bool) *c16Workload {
-	return &c16Workload{in: in, rng: NewRng(seed), thor: thor, price: map[uint64]uint64{}, assetID: map[string]uint64{}}
+	return &c16Workload{in: in, rng: NewRng(seed), thor: thor, price: map[uint64]uint64{}, assetID: map[string]uint64{}, epochSeen: map[string]rewardstypes.EpochInfo{}}
 }
 
-// blockGap: seconds between blocks; every 8th block a day passes (epochs, gauges, reward distribution, interest).
+// blockGap: seconds between blocks; every 8th block a day passes (epochs, gauges, reward distribution, interest);
+// CHAIN HALTS: before block 21 (and every 24 blocks from there) the chain stands still for several days — more than two
+// durations of every epoch in the store (12 h, 24 h, 36 h) —, the x/rewards BeginBlocker takes its halt-recovery branch.
 func (w *c16Workload) blockGap(b int) int64 {
+	if w.isHalt(b) {
+		return int64(3+(b/24)%3)*86400 + 7*3600 + 13
+	}
 	if b > 0 && b%8 == 0 {
 		return 86400 + 60
 	}
+	if b > 0 && b%8 == 4 {
+		return 12*3600 + 30 // half a day: the 12 h epoch runs at another rhythm than the 24 h epoch
+	}
 	return 6
+}
+
+func (w *c16Workload) isHalt(b int) bool { return b >= 21 && b%24 == 21 }
+
+// probe (after the block's Commit): counts what the begin / end blockers did, from the state they left
+func (w *c16Workload) probe(b int) {
+	in := w.in
+	ctx := in.app.BaseApp.NewUncachedContext(false, in.header)
+	for _, e := range in.app.Rewardskeeper.GetAllEpochInfos(ctx) {
+		key := "epoch:" + e.Duration.String()
+		if prev, ok := w.epochSeen[key]; ok {
+			if e.CurrentEpoch > prev.CurrentEpoch {
+				in.stats["unit:rewards-epoch-trigger:"+e.Duration.String()]++
+			} else if !e.CurrentEpochStartTime.Equal(prev.CurrentEpochStartTime) && prev.CurrentEpoch > 0 {
+				in.stats["unit:rewards-epoch-halt-recovery:"+e.Duration.String()]++
+			}
+		}
+		w.epochSeen[key] = e
+	}
+	if w.isHalt(b) {
+		in.stats["chain-halt-blocks"]++
+	}
 }
 
 func (w *c16Workload) must(err error, what string) {
@@ -505,7 +537,8 @@ func (w *c16Workload) liquidityStep(b int) {
 		who := w.user()
 		p := w.pairs[w.rng.Intn(len(w.pairs))]
 		poolID := p.pools[w.rng.Intn(len(p.pools))]
-		msg := rewardstypes.NewMsgCreateGauge(c16AppSwap, w.addr(who), in.now.Add(10*time.Second), rewardstypes.LiquidityGaugeTypeID, 24*time.Hour,
+		dur := []time.Duration{12 * time.Hour, 24 * time.Hour, 36 * time.Hour, 24 * time.Hour}[(b/7)%4]
+		msg := rewardstypes.NewMsgCreateGauge(c16AppSwap, w.addr(who), in.now.Add(10*time.Second), rewardstypes.LiquidityGaugeTypeID, dur,
 			sdk.NewCoin("uharbor", sdk.NewInt(int64(30_000_000+w.rng.Intn(1000)))), uint64(2+w.rng.Intn(3)))
 		child := []uint64{}
 		master := false
